@@ -364,6 +364,40 @@ static void run_table(Shared &S, MT &m, const std::vector<Row> &rows, bool has_e
                        lists[li].cls, mode_name(mm), lists[li].v, N, sg, got, exc, what, table);
         }
     }
+    // ---- a row corrected IN PLACE between two retrievals of the same index: position i is retrieved, row i of the positions (and extents)
+    //      table is overwritten with the numbers of row j, position i is retrieved again with nothing else in between: the answer must be
+    //      the one the unchanged row j gives (nothing may remember the old row).  The row is restored afterwards.
+    if (N >= 2 && k % 3 == 0) {
+        const double scale = m.cal_on ? 0.5 : 1.0;
+        for (size_t i = 0; i < N; i++) {
+            const size_t j = (i + 1) % N;
+            const int mi = static_cast<int>((k + static_cast<long>(i)) % 2);
+            const RangeMatch mm = MODES[mi];
+            if (rows[i].p == rows[j].p && (!has_ext || rows[i].e == rows[j].e)) continue;
+            std::vector<double> pj(width), ej(width, 0.0), pi_(width), ei(width, 0.0);
+            for (size_t c = 0; c < width; c++) { pj[c] = rows[j].p[c] * scale; pi_[c] = rows[i].p[c] * scale; if (has_ext) { ej[c] = rows[j].e[c] * scale; ei[c] = rows[i].e[c] * scale; } }
+            NDSize cnt(m.cols == 0 ? 1 : 2, 1), off(m.cols == 0 ? 1 : 2, 0);
+            if (m.cols != 0) cnt[1] = static_cast<ndsize_t>(width);
+            off[0] = static_cast<ndsize_t>(i);
+            Got warm = observe([&] { return util::taggedData(m.tag, i, da, mm); });
+            (void)warm;
+            m.pos.setData(DataType::Double, pj.data(), cnt, off);
+            if (has_ext) m.ext.setData(DataType::Double, ej.data(), cnt, off);
+            Got again = observe([&] { return util::taggedData(m.tag, i, da, mm); });
+            Got againf = observe([&] { return util::featureData(m.tag, i, m.feat_t, mm); });
+            m.pos.setData(DataType::Double, pi_.data(), cnt, off);
+            if (has_ext) m.ext.setData(DataType::Double, ei.data(), cnt, off);
+            vf::count("retrievals", 3); vf::count("rows_corrected_in_place");
+            const Got &want = single[mi][j], &wantf = single_t[mi][j];
+            auto differs = [](const Got &a, const Got &b) { if (a.exc.empty() != b.exc.empty()) return true; if (!a.exc.empty()) return false; return !same_view(a, b); };
+            if (differs(again, want))
+                vf::violation(P + "|taggedData(MultiTag)|row of the positions table rewritten in place between two retrievals of the same index|equals the retrieval of the row that holds these numbers|" + (again.exc.empty() ? (want.exc.empty() ? "other elements" : "returns data") : "raises"),
+                              "util::taggedData(MultiTag,index,array,match) index " + std::to_string(i) + " after row " + std::to_string(i) + " was overwritten with row " + std::to_string(j) + " " + mode_name(mm) + " " + table);
+            if (differs(againf, wantf))
+                vf::violation(P + "|featureData(MultiTag), tagged feature|row of the positions table rewritten in place between two retrievals of the same index|equals the retrieval of the row that holds these numbers|" + (againf.exc.empty() ? (wantf.exc.empty() ? "other elements" : "returns data") : "raises"),
+                              "util::featureData(MultiTag,index,feature,match) index " + std::to_string(i) + " after row " + std::to_string(i) + " was overwritten with row " + std::to_string(j) + " " + mode_name(mm) + " " + table);
+        }
+    }
 }
 
 // rows with `cols` entries (cols == 0: one entry, stored in a 1-D positions array) over the product of the candidates
